@@ -170,7 +170,7 @@ func FlagString(f int) string {
 }
 
 // MaxHandles is the size of the handle table of an Env.
-const MaxHandles = 6
+const MaxHandles = 8
 
 // Env is what an Op is applied to: a file system and a handle table.
 type Env struct {
